@@ -103,6 +103,14 @@ def loose_sig(f, missing_equiv=False):
     return (f.name, f.shape, f.index.depth, f.columns.depth, tuple(ix), tuple(cx), cells)
 
 
+def fast_sig(f):
+    """cheap exact signature of a Frame: class, name, labels, index/columns classes and per-block dtype + cells"""
+    name = f.name.item() if isinstance(f.name, np.generic) else f.name
+    return repr((type(f).__name__, name, f.shape, type(f._index).__name__, f._index.name, f._index.values.tolist(),
+                 type(f._columns).__name__, f._columns.name, f._columns.values.tolist(),
+                 [(b.dtype.str, b.tolist()) for b in f._blocks._blocks]))
+
+
 class World:
     """a written store file plus the eager reference reads"""
 
@@ -116,8 +124,8 @@ class World:
         self.src = sf.Bus.from_frames(self.frames)
         self.write()
         st = store_class(spec)(self.fp)
-        self.eager = {l: snapshot(st.read(l, config=self.config[l])) for l in self.labels}
-        self.eager_default = {l: snapshot(st.read(l, config=self.config.default)) for l in self.labels}
+        self.eager = {l: fast_sig(st.read(l, config=self.config[l])) for l in self.labels}
+        self.eager_default = {l: fast_sig(st.read(l, config=self.config.default)) for l in self.labels}
         self.shapes = {l: st.read(l, config=self.config[l]).shape for l in self.labels}
 
     def write(self):
@@ -211,12 +219,14 @@ def history_plan(tier, primary, n):
     """[(alphabet size, length, max_persist filter)]"""
     anymp = lambda mp: True
     bounded = lambda mp: mp is not None and mp < n
+    notfull = lambda mp: mp is None or mp < n
+    mid = lambda mp: mp is not None and 1 < mp < n
     if tier == 'quick':
         if primary:
             return {1: [('full', 1, anymp), ('full', 2, anymp), ('small', 3, anymp), ('small', 4, anymp)],
-                    2: [('full', 1, anymp), ('full', 2, anymp), ('medium', 3, anymp), ('small', 4, anymp), ('loc', 5, anymp)],
-                    3: [('full', 1, anymp), ('full', 2, anymp), ('medium', 3, anymp), ('small', 4, bounded), ('loc', 5, anymp)],
-                    4: [('full', 1, anymp), ('full', 2, anymp), ('small', 3, anymp), ('loc', 4, anymp), ('loc', 5, bounded)]}[n]
+                    2: [('full', 1, anymp), ('full', 2, anymp), ('medium', 3, notfull), ('small', 4, notfull), ('loc', 5, anymp)],
+                    3: [('full', 1, anymp), ('full', 2, anymp), ('medium', 3, notfull), ('small', 4, bounded), ('loc', 5, anymp)],
+                    4: [('full', 1, anymp), ('full', 2, anymp), ('small', 3, anymp), ('loc', 4, anymp), ('loc', 5, mid)]}[n]
         return [('full', 1, anymp), ('medium', 2, anymp), ('loc', 3, anymp)] if n <= 3 else [('full', 1, anymp)]
     if primary:
         return [('full', 1, anymp), ('full', 2, anymp), ('full', 3, anymp), ('medium', 4, anymp), ('small', 5, anymp), ('loc', 6, bounded)]
@@ -284,7 +294,7 @@ def check_frame(f, label, world, mp, opname, problems):
     if not isinstance(f, sf.Frame):
         problems.append((f'{PID}:bus:{opname}:placeholder-returned', f'{opname} returned {f!r} for label {label!r} instead of the Frame'))
         return
-    s = snapshot(f)
+    s = fast_sig(f)
     if s != world.eager[label]:
         if s == world.eager_default[label] and world.eager_default[label] != world.eager[label]:
             problems.append((f'{PID}:bus:per-label-config-ignored' + (':max_persist-1' if mp == 1 else ''),
